@@ -94,3 +94,17 @@ def check(prog: Program, rep):
     c14.splice_rule(prog, px, "C14.R1")
     from rules.providers import given_weights_integral
     given_weights_integral(prog, rep, "C08.R8", ["kMinPathError"])
+    # the self-check of positions / path lengths compares with a tolerance (sums of non-integer lengths are not integers)
+    ap = prog.cls("AbstractPathModelDAG")
+    for mname in ("verify_edge_position", "verify_path_length"):
+        m = ap.methods.get(mname)
+        if m is None:
+            continue
+        key = f"AbstractPathModelDAG.{mname}:tolerance"
+        rounds = [c for c in ast.walk(m.node) if isinstance(c, ast.Compare) and any(isinstance(x, ast.Call) and dotted(x.func) == "round" for x in [c.left] + list(c.comparators))]
+        if rounds:
+            rep.violation("C08.R8", key, f"`{norm(rounds[0])[:80]}` rounds the solver value before comparing it with a sum of edge lengths: with a non-integer length_attr the "
+                          "model's own correct solution is reported invalid (is_valid_solution() False)", m.loc(rounds[0]))
+        else:
+            rep.ok("C08.R8", key, "solver values are compared with the sums of the edge lengths up to a tolerance", m.loc())
+
